@@ -135,15 +135,19 @@ def parse_tla_value(s):
     return v
 
 
+_CHUNK = re.compile(r'<<\s*"[A-Z][A-Za-z0-9_]*"\s*,')
+
+
 def _balanced_chunks(text):
     """Yield top-level <<...>> chunks from TLC stdout (PrintT output can span lines and,
     with several workers, interleave; chunks are recovered by bracket matching)."""
     i = 0
     n = len(text)
     while True:
-        j = text.find('<<"', i)
-        if j < 0:
+        mm = _CHUNK.search(text, i)
+        if not mm:
             return
+        j = mm.start()
         depth = 0
         k = j
         instr = False
@@ -183,10 +187,10 @@ def run(module, cfg, workers=None, env=None, timeout=900, simulate=None, depth=N
             with open(cfg_path, 'w') as f:
                 f.write(cfg)
         else:
-            cfg_path = cfg
+            cfg_path = os.path.abspath(cfg)
         if workers is None:
             workers = int(os.environ.get('VERIF_TLC_WORKERS', '16'))
-        jopts = ['-XX:+UseParallelGC', '-Xss16m']
+        jopts = ['-XX:+UseParallelGC', '-Xss16m'] if workers > 2 else ['-XX:+UseSerialGC', '-Xss16m', '-Xmx3g']
         if stdeque:
             jopts.append('-Dtlc2.tool.queue.IStateQueue=StateDeque')
         cmd = ['java'] + jopts + ['-cp', JAR, 'tlc2.TLC', '-workers', str(workers),
@@ -262,15 +266,20 @@ def run(module, cfg, workers=None, env=None, timeout=900, simulate=None, depth=N
                 bad = pat
                 break
         if bad and not r.violated:
-            raise TlcError('TLC failure (%s) on %s:\n%s' % (bad, module, out[-3000:]))
+            raise TlcError('TLC failure (%s) on %s:\n%s' % (bad, module, _errtext(out)))
         if bad and r.violated:
             # an evaluation error next to a violation report is still a machinery failure
             if not re.search(r'is violated', out):
-                raise TlcError('TLC failure (%s) on %s:\n%s' % (bad, module, out[-3000:]))
+                raise TlcError('TLC failure (%s) on %s:\n%s' % (bad, module, _errtext(out)))
         return r
     finally:
         if not keep:
             shutil.rmtree(wd, ignore_errors=True)
+
+
+def _errtext(out):
+    i = out.find('Error:')
+    return out[max(0, i - 200):i + 3500] if i >= 0 else out[-3000:]
 
 
 def sany(module):
